@@ -35,7 +35,7 @@ def main():
     finally:
         shutil.rmtree(dst, ignore_errors=True)
         # checks that run translators leave coq/Gen regenerated from the scratch copy: restore it from /repo
-        if set(ids) - {"C01", "C02", "C04", "C05", "C06", "C07", "C09", "C11", "C12", "C14", "C18"}:
+        if set(ids) - {"C01", "C04", "C05", "C06", "C07", "C09", "C11", "C12", "C14", "C18"}:
             subprocess.run(["./check", "--setup"], cwd="/verif", capture_output=True, text=True)
 
 
